@@ -186,20 +186,61 @@ HEADER = "(* GENERATED by harness/translate.py from /repo -- do not edit *)\n" \
          "From Coq Require Import NArith ZArith List.\nImport ListNotations.\nOpen Scope N_scope.\n\n"
 
 
+OUTPUTS_FILE = os.path.join(os.path.dirname(os.path.abspath(__file__)), "gen_outputs.json")
+
+
 def gen_all():
+    """Run every gen_*.py.  A generator that fails closed does not stop the others: all are run, and one
+    TranslateError is raised at the end whose .per_gen maps generator name -> message, so that the checks can
+    tell which properties the failure concerns (by the Gen files that generator owns, harness/gen_outputs.json)."""
     sys.path.insert(0, REPO)
     here = os.path.dirname(os.path.abspath(__file__))
     if here not in sys.path:
         sys.path.insert(0, here)
     import glob
-    changed = []
+    import json
+    changed, errors, outputs = [], {}, {}
+    try:
+        with open(OUTPUTS_FILE) as f:
+            outputs = json.load(f)
+    except (OSError, ValueError):
+        outputs = {}
+    seen = dict(outputs)
     for path in sorted(glob.glob(os.path.join(here, "gen_*.py"))):
         modname = os.path.basename(path)[:-3]
-        mod = importlib.import_module(modname)
-        for fname, text in mod.generate().items():
+        try:
+            mod = importlib.import_module(modname)
+            files = mod.generate()
+        except TranslateError as e:
+            errors[modname] = str(e)
+            continue
+        seen[modname] = sorted(files)
+        for fname, text in files.items():
             if write_if_changed(fname, HEADER + text):
                 changed.append(fname)
+    if seen != outputs:
+        try:
+            with open(OUTPUTS_FILE, "w") as f:
+                json.dump(seen, f, indent=1, sort_keys=True)
+                f.write("\n")
+        except OSError:
+            pass
+    if errors:
+        e = TranslateError("; ".join("%s: %s" % kv for kv in sorted(errors.items())))
+        e.per_gen = errors
+        e.changed = changed
+        raise e
     return changed
+
+
+def outputs_of(modname):
+    """Gen files owned by a generator (from its last successful run), or None when unknown."""
+    import json
+    try:
+        with open(OUTPUTS_FILE) as f:
+            return json.load(f).get(modname)
+    except (OSError, ValueError):
+        return None
 
 
 if __name__ == "__main__":
